@@ -6,6 +6,7 @@ Handles all logic related to checkpointing.
 """
 import datetime
 import logging
+import os
 import pathlib
 import re
 import urllib.parse
@@ -195,12 +196,18 @@ class Checkpointer:
 
         data["__datetime__"] = datetime.datetime.now().strftime("%Y-%m-%d %H:%M:%S")
 
-        with open(str(checkpoint_path), "wb") as f:
+        # Write to temporary files and rename them into place, so that a crash while saving never leaves a
+        # truncated checkpoint or an empty `last_model.txt` behind.
+        tmp_checkpoint_path = self.save_directory / f"model_{iteration}.pt.tmp"
+        with open(str(tmp_checkpoint_path), "wb") as f:
             torch.save(data, f)
+        os.replace(tmp_checkpoint_path, checkpoint_path)
 
+        tmp_last_model_text_path = self.save_directory / "last_model.txt.tmp"
         # noinspection PyTypeChecker
-        with open(self.save_directory / "last_model.txt", "w", encoding="utf-8") as f:  # type: ignore
+        with open(tmp_last_model_text_path, "w", encoding="utf-8") as f:  # type: ignore
             f.write(str(iteration))  # type: ignore
+        os.replace(tmp_last_model_text_path, self.save_directory / "last_model.txt")
 
     def _load_checkpoint(self, checkpoint_path: PathOrString) -> Dict:
         """Load a checkpoint from path or string.
